@@ -825,6 +825,9 @@ func (c *Ctx) candidate14CLI(caseIdx int, prog *Prog, w *CLIWorld, ts []string, 
 	if ok, _, _, _ := fails(prog, set); !ok {
 		c.ev.Count("unconfirmed_candidates", 1)
 		c.logf("CLI candidate (case %d, victim %s in %v) did not reproduce: not reported", caseIdx, victim, ts)
+		c.mu.Lock()
+		delete(c.sigSeen, "coarse:"+coarse)
+		c.mu.Unlock()
 		return
 	}
 	for i := 0; i < len(set); {
